@@ -653,7 +653,11 @@ func (th *Thread) runFrame(fr *frame) {
 		fr.panicking = true
 		fr.panicVal = r
 		th.top = fr
+		if th.panicTrace == "" {
+			th.panicTrace = th.whereAmI()
+		}
 		fr.runDefers() // re-panics unless recovered
+		th.panicTrace = ""
 		fr.block = fr.fn.Recover
 		if fr.block == nil {
 			// recovered in a function without named results: return zero values
